@@ -109,6 +109,7 @@ func checkC27(w *World, r *Run) {
 	checkC27JSON(w, r, ruleJSON, m)
 	checkC27Text(w, r, ruleText, m)
 	checkC27ChainLink(w, r)
+	checkJSONNumericWidths(w, r)
 	checkBinaryReadsAreFull(w, r)
 	checkC27RawBytesHashed(w, r)
 	r.NotCovered("collision resistance / injectivity of the hash input encoding beyond per-field presence; chain checks of the Validator over insert/delete/reorder (decided only through PreviousHash being hashed); escape/unescape inverse of the text serializer")
